@@ -55,8 +55,18 @@ class LibRaised(Exception):
         self.fn, self.exc = fn, exc
 
 
+RETRIED = [0]
+
+
 def call(fn, f, *a):
-    """One library call on fresh copies of its array arguments; an exception is a finding, not a harness error."""
+    """One library call on fresh copies of its array arguments; an exception is a finding, not a harness error.
+    The call is repeated once before it is believed: the JIT's on-disk cache directory can be pruned by a concurrent
+    run of another check (observed: FileNotFoundError out of a kernel's first call), which is not the library's doing;
+    a defect of the library raises again."""
+    try:
+        return f(*[x.copy() if isinstance(x, np.ndarray) else x for x in a])
+    except Exception:  # noqa: BLE001
+        RETRIED[0] += 1
     try:
         return f(*[x.copy() if isinstance(x, np.ndarray) else x for x in a])
     except Exception as e:  # noqa: BLE001 - any exception of the library on a valid input is a violation
@@ -360,8 +370,11 @@ def work_chains(p):
     mr = _mr()
     acc = lattice.Acc()
     items = chain_items(p["tier"])[::p.get("stride", 1)]
+    r0 = RETRIED[0]
     for it in items[p["lo"]:p["hi"]]:
         run_chain_item(acc, mr, it, p["seed"], False)
+    if RETRIED[0] > r0:
+        acc.outcome("library_call_repeated_after_exception", RETRIED[0] - r0)
     return acc.result()
 
 
@@ -369,8 +382,11 @@ def work_windows(p):
     mr = _mr()
     acc = lattice.Acc()
     items = window_items(p["tier"])[::p.get("stride", 1)]
+    r0 = RETRIED[0]
     for it in items[p["lo"]:p["hi"]]:
         run_chain_item(acc, mr, it, p["seed"], True)
+    if RETRIED[0] > r0:
+        acc.outcome("library_call_repeated_after_exception", RETRIED[0] - r0)
     return acc.result()
 
 
@@ -403,8 +419,9 @@ def eval_arm_state(acc, mr, ac, q, V, sidx, raised_seen):
     def libcall(fn, f, *a):
         try:
             with dynlib_quiet():
-                return f(*[x.copy() if isinstance(x, np.ndarray) else x for x in a])
-        except Exception as e:  # noqa: BLE001
+                return call(fn, f, *a)
+        except LibRaised as lr:
+            e = lr.exc
             k = (ac.name, fn, type(e).__name__)
             c = dict(base, fn=fn)
             if k not in raised_seen:
@@ -497,8 +514,23 @@ def _mark(m, stride):
     return m
 
 
+def warm(seed):
+    """Compile every kernel the check touches once in the parent: on a tree whose JIT cache is cold, 16 workers
+    compiling and writing the on-disk cache at the same time race (observed: FileNotFoundError out of a kernel call)."""
+    acc = lattice.Acc()
+    mr = _mr()
+    run_chain_item(acc, mr, ((0, 3), "R", "gen", 5), seed, False)
+    try:
+        ac = arm_case("gen:3R@B1", seed)
+        eval_arm_state(acc, mr, ac, dynlib.arm_states(ac.n, ac.lo, ac.hi, "quick")[3], vecs(ac.n, seed), 3, set())
+    except Exception:  # noqa: BLE001 - whatever is wrong with the tree is reported by the enumeration itself
+        pass
+
+
 def run(ctx):
     tier = ctx.tier
+    warm(ctx.seed)
+    ctx.log("kernels warm")
     ci, wi, ai = chain_items(tier), window_items(tier), arm_items(tier)
     parts = [x for x in os.environ.get("VERIF_C08_PARTS", "chains,windows,arms").split(",") if x]   # development aids only:
     stride = max(1, int(os.environ.get("VERIF_C08_STRIDE", "1") or 1))                                # a run that uses them is not exhaustive
